@@ -2,7 +2,7 @@ package assets
 
 // C20 — the client's stored ClientConf is replaced atomically.
 //
-// Shared machinery of the three C20 sub-checks (kill, faultgrid, faults):
+// Shared machinery of the C20 sub-checks (kill, faultgrid, faults, sizes, concurrent, twoproc):
 //
 //   * a case is a list of store operations whose *content* is a deterministic function of the
 //     operation's index (c20Arg), optionally a fault per operation, optionally a kill point;
@@ -61,6 +61,7 @@ type c20Op struct {
 	Limit int64  `json:"limit,omitempty"` // fault=fsize: RLIMIT_FSIZE (soft) in bytes during the store
 	Exact int    `json:"exact,omitempty"` // conf only: the encoded ClientConf is exactly this many bytes (buffer-size boundaries)
 	AgeH  int    `json:"age_h,omitempty"` // the existing ClientConf file is back-dated by this many hours before the store
+	Gen   uint32 `json:"gen,omitempty"`   // conf/gen only: the generation carried (0 = the default, unique to the index), so that stores of different processes can carry the same generation
 }
 
 func (o c20Op) String() string {
@@ -73,6 +74,9 @@ func (o c20Op) String() string {
 	}
 	if o.AgeH > 0 {
 		s += fmt.Sprintf("@old%dh", o.AgeH)
+	}
+	if o.Gen > 0 {
+		s += fmt.Sprintf("#g%d", o.Gen)
 	}
 	if o.Fault != "" {
 		s += "!" + o.Fault
@@ -91,6 +95,9 @@ type c20Case struct {
 	// XDev: run the child with TMPDIR on another file system than the assets directory (when one is
 	// available), so that a store that stages its temporary file in os.TempDir() cannot rename it
 	XDev bool `json:"xdev,omitempty"`
+	// Base is added to the position of a store to give the index its content is a function of (sub-check
+	// "twoproc": two processes must not store the same content)
+	Base int `json:"base,omitempty"`
 	// Conc (sub-check "concurrent"): instead of Ops, these actors store concurrently, one goroutine each
 	Conc []c20ConcActor `json:"conc,omitempty"`
 }
@@ -264,7 +271,19 @@ func c20ConfFor(idx int, op c20Op) *pb.ClientConf {
 	if op.Exact > 0 && op.Fault != "marshal" {
 		return c20ConfExact(idx, op.Exact)
 	}
-	return c20Conf(idx, op.KB, op.Fault == "marshal")
+	c := c20Conf(idx, op.KB, op.Fault == "marshal")
+	if op.Gen > 0 {
+		c.Generation = proto.Uint32(op.Gen)
+	}
+	return c
+}
+
+// c20GenFor is the generation that store #idx (a "gen" op) sets.
+func c20GenFor(idx int, op c20Op) uint32 {
+	if op.Gen > 0 {
+		return op.Gen
+	}
+	return uint32(1000 + idx)
 }
 
 // c20Arg is the argument of store #idx.
@@ -277,7 +296,7 @@ func c20Arg(idx int, op c20Op) any {
 	case "pubkey":
 		return c20Key(idx)
 	case "gen":
-		return uint32(1000 + idx)
+		return c20GenFor(idx, op)
 	case "subnets":
 		return c20Subnets(idx, op.KB)
 	}
@@ -301,7 +320,7 @@ func c20Model(cur *pb.ClientConf, idx int, op c20Op) *pb.ClientConf {
 	case "pubkey":
 		n.DefaultPubkey = c20Key(idx)
 	case "gen":
-		n.Generation = proto.Uint32(uint32(1000 + idx))
+		n.Generation = proto.Uint32(c20GenFor(idx, op))
 	case "subnets":
 		n.PhantomSubnetsList = c20Subnets(idx, op.KB)
 	default:
@@ -440,7 +459,7 @@ func c20ChildMain() {
 	}
 	args := make([]any, len(c.Ops))
 	for i, op := range c.Ops {
-		args[i] = c20Arg(i, op)
+		args[i] = c20Arg(c.Base+i, op)
 	}
 	var unlimited syscall.Rlimit
 	if err := syscall.Getrlimit(syscall.RLIMIT_FSIZE, &unlimited); err != nil {
